@@ -41,6 +41,8 @@ pub enum Op {
     /// acknowledge through a StreamingPull control message (stream opened on demand, kept open)
     StreamAck(&'static str, Which),
     StreamMod(&'static str, Which, i32),
+    /// Acknowledge with an arbitrary id list (unary, or as a control message on a stream opened for it)
+    AckIds(&'static str, Vec<IdKind>, bool),
     /// ModifyAckDeadline with an arbitrary id list (unary, or as a control message on a stream opened for it)
     ModIds(&'static str, Vec<IdKind>, i32, bool),
     /// open a StreamingPull on the subscription (kept open; its deliveries are fed to the model after every step)
@@ -80,6 +82,9 @@ impl Op {
             Op::AdvBefore => m.earliest_lo().map(|lo| lo - 1 > m.now_ms).unwrap_or(false),
             Op::AdvPast => m.earliest_lo().is_some(),
             Op::StreamOpen(s, _) => m.subs.contains_key(*s),
+            Op::AckIds(s, kinds, _) | Op::ModIds(s, kinds, _, _) => {
+                m.subs.get(*s).map(|sub| (!kinds.contains(&IdKind::A) && !kinds.contains(&IdKind::B) || !sub.outstanding.is_empty()) && (!kinds.contains(&IdKind::Stale) || !sub.stale_ack_ids.is_empty())).unwrap_or(false)
+            }
             _ => true,
         }
     }
@@ -331,6 +336,41 @@ pub async fn apply(cx: &Ctx, st: &mut SeqState, op: &Op, unfrozen: bool) -> Resu
         }
         Op::StreamOpen(s, max) => {
             open_stream(cx, st, s, max, unfrozen).await?;
+        }
+        Op::AckIds(s, kinds, via_stream) => {
+            let ids: Vec<String> = kinds
+                .iter()
+                .map(|k| match k {
+                    IdKind::A => pick_id(&st.model, s, &Which::Oldest).unwrap_or_else(|| "7777".into()),
+                    IdKind::B => pick_id(&st.model, s, &Which::Newest).unwrap_or_else(|| "7778".into()),
+                    IdKind::Stale => st.model.subs[s].stale_ack_ids.first().cloned().unwrap_or_else(|| "7779".into()),
+                    IdKind::Unknown => "9999".into(),
+                    IdKind::BadX => "x".into(),
+                    IdKind::BadEmpty => "".into(),
+                })
+                .collect();
+            if !via_stream {
+                let i2 = ids.clone();
+                let r = call(cx, unfrozen, "client:ack", async move { a.ack(s, i2).await }).await?;
+                v2v(st.model.ack(s, &ids, &r), st, &ops)?;
+            } else {
+                open_stream(cx, st, s, 1000, unfrozen).await?;
+                absorb_streams(st)?;
+                let tx = st.streams[s].tx.clone();
+                let req = deltio::pubsub_proto::StreamingPullRequest { ack_ids: ids.clone(), ..Default::default() };
+                call(cx, unfrozen, "client:stream-ctl", async move { tx.send(req).await.is_ok() }).await?;
+                let ended = st.streams[s].ended.lock().unwrap().clone();
+                let r: Result<(), Code> = match ended.as_deref() {
+                    None => Ok(()),
+                    Some("InvalidArgument") => Err(Code::InvalidArgument),
+                    Some(other) => return Err(Verdict::Violation { sig: "stream/odd-termination".into(), detail: format!("control message ack {:?} ended the stream with {}", ids, other) }),
+                };
+                if r.is_err() {
+                    let h = st.streams.remove(s).unwrap();
+                    h.reader.abort();
+                }
+                v2v(st.model.ack(s, &ids, &r), st, &ops)?;
+            }
         }
         Op::ModIds(s, kinds, secs, via_stream) => {
             let ids: Vec<String> = kinds
